@@ -737,7 +737,7 @@ def rule_runtime_support(rep: Report, repo: Repo):
               "series: zero / one / PENDING are module-level singletons (compared by identity)", "", repo.loc("series", zero[0]))
     cont = repo.find("series::BlockSeries::__contains__", R)
     outs = [o for o in _outcomes(cont.body, None, env={}, expand=False) if o.kind == "return"]
-    got = sorted({_ctext(o.value) for o in outs})
+    got = sorted({_ctext(_inline(o.value, _Scope(tree, cont))) for o in outs})  # a module-level predicate (`_is_zero(x)`) is expanded
     rep.check(got == ["self._data.get(item) is not zero"], R,
               "series::BlockSeries.__contains__ is False exactly for elements known to be the `zero` sentinel",
               f"{got}; this is what lets `start = 0` pin an order and product_by_order skip absent terms", repo.loc("series", cont))
